@@ -834,6 +834,42 @@ where
         Ok(())
     }
 
+    /// A worker that was already scheduled for removal by a pool shrink (it is draining)
+    /// and has nothing left in its queue is not replaced when it dies: it is simply dropped
+    /// from the pool, exactly as if it had finished its last job. Returns true if it was dropped.
+    fn drop_dead_draining_worker(&mut self, who: ActorId) -> bool {
+        let Some(wid) = self.worker_by_actor.get(&who).copied() else {
+            return false;
+        };
+        let removable = self
+            .pool
+            .get(&wid)
+            .is_some_and(|worker| worker.is_draining && worker.queued_job_count() == 0);
+        if removable {
+            self.pool.remove(&wid);
+            self.worker_by_actor.remove(&who);
+            self.router.on_worker_availability_change(wid, false);
+        }
+        removable
+    }
+
+    /// The replacement of a draining worker only finishes the jobs its predecessor still had
+    /// queued. If nothing is left (e.g. the queued jobs had all expired) it is removed right away,
+    /// as a draining worker is when it completes its last job.
+    fn drop_idle_draining_worker(&mut self, wid: WorkerId) {
+        if self
+            .pool
+            .get(&wid)
+            .is_some_and(|worker| worker.is_draining && !worker.is_working())
+        {
+            if let Some(worker) = self.pool.remove(&wid) {
+                self.worker_by_actor.remove(&worker.actor.get_id());
+                self.router.on_worker_availability_change(wid, false);
+                worker.actor.stop(None);
+            }
+        }
+    }
+
     fn reply_with_available_capacity(&self, reply: RpcReplyPort<usize>) {
         // calculate the worker's free capacity
         let worker_availability = self
@@ -1037,6 +1073,9 @@ where
     ) -> Result<(), ActorProcessingErr> {
         match message {
             SupervisionEvent::ActorTerminated(who, _, reason) => {
+                if state.drop_dead_draining_worker(who.get_id()) {
+                    return Ok(());
+                }
                 let should_ping_replacement = state.dead_mans_switch.is_some();
                 let worker_id = state.worker_by_actor.get(&who.get_id()).copied();
                 let replacement =
@@ -1067,13 +1106,21 @@ where
                 if let Some((wid, replacement_id)) = replacement {
                     state.worker_by_actor.remove(&who.get_id());
                     state.worker_by_actor.insert(replacement_id, wid);
-                    state.try_route_next_active_job(Some(wid))?;
-                    if matches!(state.pool.get(&wid), Some(w) if w.is_available()) {
-                        state.router.on_worker_availability_change(wid, true);
+                    if matches!(state.pool.get(&wid), Some(w) if w.is_draining) {
+                        // don't schedule more work on a worker that is on its way out
+                        state.drop_idle_draining_worker(wid);
+                    } else {
+                        state.try_route_next_active_job(Some(wid))?;
+                        if matches!(state.pool.get(&wid), Some(w) if w.is_available()) {
+                            state.router.on_worker_availability_change(wid, true);
+                        }
                     }
                 }
             }
             SupervisionEvent::ActorFailed(who, reason) => {
+                if state.drop_dead_draining_worker(who.get_id()) {
+                    return Ok(());
+                }
                 let should_ping_replacement = state.dead_mans_switch.is_some();
                 let worker_id = state.worker_by_actor.get(&who.get_id()).copied();
                 let replacement =
@@ -1104,9 +1151,14 @@ where
                 if let Some((wid, replacement_id)) = replacement {
                     state.worker_by_actor.remove(&who.get_id());
                     state.worker_by_actor.insert(replacement_id, wid);
-                    state.try_route_next_active_job(Some(wid))?;
-                    if matches!(state.pool.get(&wid), Some(w) if w.is_available()) {
-                        state.router.on_worker_availability_change(wid, true);
+                    if matches!(state.pool.get(&wid), Some(w) if w.is_draining) {
+                        // don't schedule more work on a worker that is on its way out
+                        state.drop_idle_draining_worker(wid);
+                    } else {
+                        state.try_route_next_active_job(Some(wid))?;
+                        if matches!(state.pool.get(&wid), Some(w) if w.is_available()) {
+                            state.router.on_worker_availability_change(wid, true);
+                        }
                     }
                 }
             }
